@@ -567,6 +567,17 @@ fn main() {
                 }
                 _ => { bump!("rnd_no_fault"); }
             }
+            if rng.chance(1, 4) {
+                // one additional duplicate of a data package as it was on the wire (on top of the fault above)
+                let flda: Vec<usize> = (0..s.len()).filter(|i| s[*i].k == "FLDA").collect();
+                if !flda.is_empty() {
+                    let i = *rng.pick(&flda);
+                    let j = rng.range(i as u64 + 1, s.len() as u64) as usize;
+                    let d = s[i].clone();
+                    s.insert(j, d);
+                    bump!("rnd_extra_dup");
+                }
+            }
             if cfg.apid_filter && rng.chance(1, 3) {
                 // a copy of a data package sent by another application id: unrelated traffic for a plugin filtering by apid
                 let i = rng.range(1, s.len() as u64 - 1) as usize;
